@@ -243,7 +243,14 @@ def mode_old_layouts(cases):
             try:
                 gut = sio.get_untrusted_types(data=d2)
                 back = sio.loads(d2, trusted=gut)
-                rec[str(proto)] = {"rewritten": n, "result": "same" if fingerprint(back) == fp0 else "DIFFERENT"}
+                import absval
+                # the old Generator layouts carry the bit generator state only (no seed sequence): compare without it there
+                absval.GENERATOR_SEED_SEQ = not (proto < 2 and n["rg"] > 0)
+                try:
+                    same = fingerprint(back) == (fp0 if absval.GENERATOR_SEED_SEQ else fingerprint(obj))
+                finally:
+                    absval.GENERATOR_SEED_SEQ = True
+                rec[str(proto)] = {"rewritten": n, "result": "same" if same else "DIFFERENT"}
             except Exception as e:
                 rec[str(proto)] = {"rewritten": n, "result": "raises:" + exc_name(e)}
         out.append(rec)
